@@ -4,7 +4,7 @@ functions) to Gallina, built on the `ast` module.
 
 Subset: int literals, names, + - * // % ** << >> & |, unary -, comparison
 chains, and/or/not, if/elif/else, return, raise, assignment, augmented
-assignment, one-level `while`, `isinstance(x, str)` guards and
+assignment, one-level `while`, `for v in range(<literals>)` (unrolled), `isinstance(x, str)` guards and
 `try/except ValueError` around the two string oracles `x.isnumeric()` and
 `int(x)`.  `a / b > c` (true division compared with an integer) is translated
 to `a > c * b`; see DESIGN.md C12 for why that is exact.  Anything else makes
@@ -170,7 +170,7 @@ class FunTranslator:
         return f"Raise E_{exc_name}"
 
     def block(self, stmts, env, handlers, depth=0):
-        if depth > 60:
+        if depth > 200:
             raise Refuse("nesting too deep")
         if not stmts:
             return "Ret_None"
@@ -242,6 +242,27 @@ class FunTranslator:
             return self.block(s.body + [_PopHandler()] + rest, env, hs, depth)
         if isinstance(s, _PopHandler):
             return self.block(rest, env, handlers[:-1], depth)
+        if isinstance(s, ast.For):
+            # `for v in range(<int literals>)`: unrolled (at most 64 iterations); `break` / `continue` are outside the subset,
+            # an early `return` ends the path as everywhere else
+            it = s.iter
+            if s.orelse or not isinstance(s.target, ast.Name) or not (
+                    isinstance(it, ast.Call) and isinstance(it.func, ast.Name) and it.func.id == "range" and not it.keywords
+                    and 1 <= len(it.args) <= 3 and "range" not in env
+                    and all(isinstance(a, ast.Constant) and isinstance(a.value, int) and not isinstance(a.value, bool)
+                            for a in it.args)):
+                raise Refuse("for loop other than `for <name> in range(<integer literals>)`")
+            values = list(range(*[a.value for a in it.args]))
+            if len(values) > 64:
+                raise Refuse("for loop with more than 64 iterations")
+            unrolled = []
+            for k in values:
+                unrolled.append(ast.Assign(targets=[ast.Name(id=s.target.id, ctx=ast.Store())], value=ast.Constant(value=k)))
+                unrolled.extend(s.body)
+            out = self.block(unrolled + rest, env, handlers, depth)
+            if len(out) > 200000:
+                raise Refuse("unrolled for loop too large")
+            return out
         if isinstance(s, ast.While):
             if s.orelse:
                 raise Refuse("while/else")
